@@ -1,205 +1,423 @@
 """C05 — timers run in expiry order and are independent at any population size.
 
-Heap order over arbitrary key sequences and the radix arithmetic are value-level
-invariants over unbounded histories: not decided.  Claimed: structural clauses.
+The clauses are statements about what iv_timer_register / iv_timer_unregister do to the
+heap *state* (order between a slot and its parent, slot <-> back-index agreement, what lies
+beyond the population, depth of the radix store).  They are therefore evaluated on states,
+not on the shape of the source: the two exported functions are evaluated from the facts
+(h05.Machine; no repository code is executed) with every helper they reach, on
+
+  small   every heap of up to 7 distinct expiries (and their variants with equal expiries),
+          every victim slot / every rank of a new timer; the sequence of heap states during
+          the call is recorded (sift steps);
+  capN    heaps at the capacity boundaries of the store (fan-out 128 and 128^2): populations
+          N-1 .. N+2 and 2N+44 in two key layouts, victims at the root, around the boundary
+          slot and at the end, growth by registration;
+  mixed   one long register / unregister-anywhere / drain history crossing the first boundary
+          both ways.
+
+How the source is cut into static helpers, what they are called, which locals cache what,
+loop and branch forms are all invisible to this formulation.  Unbounded histories and all
+key sequences are not decided (the clauses are necessary conditions on the bounded set).
 """
-from ..core import (names_of, same_value, AnalysisBroken, Inliner, canon, strip, last_member, must_pass, relpath, norm_cond, walk, forward)
-from ..analyses import (is_call, holding, path_to, describe, exits_of, loops, innermost_loop, must_pass_from_block, edge_dominates)
-from .c04 import cmp_tables
+from ..core import AnalysisBroken, relpath
+from . import h05
+from .h05 import Obj, is_ancestor
 
 
 def run(ctx):
-    ctx.rule('R-C05a', 'removal restores heap order in both directions: after the removed slot was refilled from the last element, every '
-                       'path to return sifts that slot, and both sift-up and sift-down are applied; registration sifts the new slot up', floor=4)
-    ctx.rule('R-C05a.step', 'sift decisions use the strict order consistently: sift-up stops unless the parent is strictly later; sift-down '
-                            'moves to a child only if the current minimum is strictly later than that very child, recording that child\'s index', floor=5)
-    ctx.rule('R-C05a.cmp', 'the order the sift steps use is timespec_gt on the expiry (table as in C04)', floor=10)
-    ctx.rule('R-C05b', 'slot and back-index move together: every store of a timer into a heap slot is paired with a store of that timer\'s '
-                       'index before the step ends; only iv_timer.c writes index / num_timers', floor=7)
-    ctx.rule('R-C05c', 'the vacated last slot is cleared before the count drops; a radix level is dropped only at the power-of-split boundary '
-                       'and with it the depth', floor=3)
-    ctx.section(both_ways)
-    ctx.section(steps)
-    ctx.section(lambda c: cmp_tables(c, 'R-C05a.cmp'))
-    ctx.section(slots)
-    ctx.section(vacated)
+    ctx.rule('R-C05a', 'register and unregister restore heap order: on every small heap and at the capacity boundaries, after the call '
+                       'returns (it must return) no timer is earlier than its parent slot\'s timer and exactly the registered timers '
+                       'occupy slots 1..n (the hole left by a removal is re-sifted in both directions, a new timer is sifted up)', floor=14)
+    ctx.rule('R-C05a.step', 'sift decisions use the strict order consistently: between two complete heap states of one call timers only '
+                            'move along parent links, a timer passes another one only if it is strictly earlier, and a timer moved '
+                            'towards the root is not later than either child of its new slot', floor=6)
+    ctx.rule('R-C05a.cmp', 'the order the sift steps use is the strict lexicographic order of (tv_sec, tv_nsec) of the expiry: for all 9 '
+                           'orderings of two expiries the earlier timer is at the root, and equal expiries are never exchanged', floor=18)
+    ctx.rule('R-C05b', 'slot and back-index move together: after every call each timer in slot k has index k; only iv_timer.c writes '
+                       'index / num_timers', floor=9)
+    ctx.rule('R-C05c', 'what lies beyond the population is empty and the store follows the population across its capacity boundaries: '
+                       'slots above num_timers are NULL after a removal, the radix depth is the one the population needs, a level is '
+                       'dropped only when the last slot of that level was vacated (no timer is lost, no freed node is used)', floor=22)
+    ctx.section(small)
+    ctx.section(capacity)
+    ctx.section(mixed)
+    ctx.section(order_table)
+    ctx.section(writers)
 
 
-def both_ways(ctx):
-    prog = ctx.prog
-    f = prog.fn('iv_timer_unregister')
-    fills = [e for e in f.events() if e['ev'] == 'store' and strip(e['lhs']).get('k') == 'deref' and strip(e.get('rhs', {})).get('k') == 'deref']
-    if not fills:
-        raise AnalysisBroken('iv_timer_unregister: refill of the removed slot from the last slot not found')
-    fill = fills[0]
-    slot = canon(strip(fill['lhs'])['e'])
-    last = canon(strip(fill['rhs'])['e'])
-    ups = [e for e in f.events() if is_call(e, 'pull_up')]
-    downs = [e for e in f.events() if is_call(e, 'push_down')]
-    # after the refill, every path to return sifts the slot, unless it is known to be the last slot itself
-    def tr(e, s_, fill=fill):
-        if e is fill:
-            return False
-        if s_ is None:
-            return None
-        if (e in ups or e in downs) and canon(e['args'][2]) == slot:
-            return True
-        return s_
-    def edge(blk, si, s_):
-        if s_ is False and blk.term and blk.term.get('cond') is not None and len(blk.succ) == 2:
-            for (op, lc, rc, l, r) in norm_cond(blk.term['cond'], si == 0):
-                if op == '==' and {lc, rc} == {slot, last}:
-                    return True
-        return s_
-    def jn(a_, b_):
-        if a_ is None:
-            return b_
-        if b_ is None:
-            return a_
-        return a_ and b_
-    _, ev_in = forward(f, None, tr, jn, edge=edge, start=fill['_b'])
-    pts = [(pb, pi) for (pb, pi, _) in exits_of(f)] + [(f.exit, 0)]
-    ok = all(ev_in.get(p) is not False for p in pts)
-    ctx.ob('R-C05a', 'unregister:refilled-slot-is-sifted', ok, loc=fill['loc'],
-           detail='after %s every path to return sifts %s, except where the refilled slot is the last slot itself (%s == %s)' % (describe(fill), slot, slot, last), fn=f.q)
-    reach = set()
-    st = [fill['_b']]
-    while st:
-        x = st.pop()
-        if x in reach or x is None:
+# ---------------------------------------------------------------------------------------
+# findings bookkeeping: an obligation is a (class, op, kind); it fails iff some scenario of
+# that class violated that invariant; the first counterexample is reported
+# ---------------------------------------------------------------------------------------
+
+KINDS = {
+    'completes': 'the call returns (no fatal path, no wild or freed pointer, terminates)',
+    'heap-order': 'no timer is earlier than the timer in its parent slot',
+    'population': 'slots 1..num_timers hold exactly the registered timers',
+    'back-index': 'the timer in slot k has index k',
+    'vacated': 'slots above num_timers are NULL',
+    'depth': 'rat_depth is the depth the population needs',
+}
+STEP_KINDS = {
+    'moves-along-parent-links': 'between two complete heap states a timer only moves to an ancestor or descendant slot',
+    'passes-only-strictly-earlier': 'a timer that moved above another one is strictly earlier than it (equal expiries are not exchanged)',
+    'promoted-not-later-than-children': 'a timer moved towards the root is not later than either child of its new slot',
+}
+
+
+class Findings:
+    def __init__(self):
+        self.bad = {}
+        self.runs = {}
+
+    def ran(self, key):
+        self.runs[key] = self.runs.get(key, 0) + 1
+
+    def add(self, key, detail):
+        self.bad.setdefault(key, detail)
+
+
+def kfmt(S, t):
+    if isinstance(t, Obj):
+        k = S.k(t)
+        return '%d.%03d' % k if k else t.name
+    return 'NULL' if t is None else str(t)
+
+
+def audit(S, live, beyond=3):
+    """[(kind, detail)] of the invariants the state violates; live: the registered timers"""
+    errs = []
+    n = len(live)
+    liveset = set(live)
+    num = S.num()
+    if num != n:
+        errs.append(('population', 'num_timers is %r but %d timers are registered' % (num, n)))
+    d = S.depth()
+    if d != S.depth_for(n):
+        errs.append(('depth', 'rat_depth is %r with %d timers (the population needs depth %d)' % (d, n, S.depth_for(n))))
+    seen = set()
+    arr = S.array(n)
+    kinds = set()
+    key = S.key
+    for k in range(1, n + 1):
+        t = arr[k]
+        if not isinstance(t, Obj) or t not in liveset or t in seen:
+            if 'population' not in kinds:
+                kinds.add('population')
+                errs.append(('population', 'slot %d of %d holds %s' % (k, n, ('a timer that is not registered (or twice): ' + kfmt(S, t))
+                                                                        if isinstance(t, Obj) else 'no timer (%s)' % kfmt(S, t))))
             continue
-        reach.add(x)
-        st.extend(f.blocks[x].succ)
-    ctx.ob('R-C05a', 'unregister:sift-up-present', any(e['_b'] in reach for e in ups), loc=fill['loc'],
-           detail='the replacement may be earlier than its new parent: pull_up(%s) is applied' % slot, fn=f.q)
-    ctx.ob('R-C05a', 'unregister:sift-down-present', any(e['_b'] in reach for e in downs), loc=fill['loc'],
-           detail='the replacement may be later than its new children: push_down(%s) is applied' % slot, fn=f.q)
-    r = prog.fn('iv_timer_register')
-    mp = must_pass(r, lambda e: is_call(e, 'pull_up'))
-    ctx.ob('R-C05a', 'register:new-slot-sifted-up', bool(mp.get((r.exit, 0))), loc=r.loc, detail='pull_up on every path of registration', fn=r.q)
+        seen.add(t)
+        if t.cells.get(S.o_index) != k and 'back-index' not in kinds:
+            kinds.add('back-index')
+            errs.append(('back-index', 'the timer in slot %d (expiry %s) has index %r' % (k, kfmt(S, t), t.cells.get(S.o_index))))
+        if k > 1 and 'heap-order' not in kinds:
+            p = arr[k >> 1]
+            if isinstance(p, Obj) and p in key and key[p] > key[t]:
+                kinds.add('heap-order')
+                errs.append(('heap-order', 'slot %d holds expiry %s, its parent slot %d holds the later %s' % (k, kfmt(S, t), k >> 1, kfmt(S, p))))
+    if len(seen) < n and 'population' not in kinds:
+        errs.append(('population', '%d registered timers are not in the store' % (n - len(seen))))
+    for k in range(n + 1, n + 1 + beyond):
+        c = S.slot_cell(k)
+        if c is not None and c[0].cells.get(c[1], 0) != 0:
+            errs.append(('vacated', 'slot %d above the population of %d still holds %s' % (k, n, kfmt(S, S.slot(k)))))
+            break
+    return errs
 
 
-def steps(ctx):
-    prog = ctx.prog
-    up = prog.fn('pull_up')
-    hd = holding(up)
-    swaps = [e for e in up.events() if e['ev'] == 'store' and strip(e['lhs']).get('k') == 'deref']
-    if not swaps:
-        raise AnalysisBroken('pull_up: swap not found')
-    pv = [p['name'] for p in up.params]
-    cur = pv[2]
+def describe_heap(S, ts, limit=12):
+    ks = [kfmt(S, t) for t in ts[:limit]]
+    return '[%s%s]' % (' '.join(ks), ' ...' if len(ts) > limit else '')
+
+
+def one_op(S, F, cls, what, ts, t, label, steps=False):
+    """evaluate `what`(t) on the store holding ts; audit; record findings.  Returns the live list."""
+    pre = describe_heap(S, ts)
+    if what == 'register':
+        live = ts + [t]
+    else:
+        live = [x for x in ts if x is not t]
+    n_after = len(live)
+    snaps = []
+    if steps:
+        want = set(live)
+
+        def watch():
+            arr = tuple(S.slot(k) for k in range(1, n_after + 1))
+            if (not snaps or snaps[-1] != arr) and len(set(arr)) == n_after and set(arr) == want:
+                snaps.append(arr)
+        watch()
+        fault = S.op(what, t, watch)
+    else:
+        fault = S.op(what, t)
+    where = '%s on heap %s: ' % (label, pre)
+    for kind in KINDS:
+        F.ran((cls, what, kind))
+    if fault is not None:
+        F.add((cls, what, 'completes'), where + fault.msg)
+        return None
+    for (kind, detail) in audit(S, live):
+        F.add((cls, what, kind), where + detail)
+    if steps:
+        for sk in STEP_KINDS:
+            F.ran((cls, what, sk))
+        for q0, q1 in zip(snaps, snaps[1:]):
+            F.ran((cls, what, 'transitions'))
+            check_step(S, F, cls, what, q0, q1, n_after, where)
+    return live
+
+
+def check_step(S, F, cls, what, q0, q1, n, where):
+    pos0 = {t: i + 1 for i, t in enumerate(q0)}
+    pos1 = {t: i + 1 for i, t in enumerate(q1)}
+    moved = [t for t in q1 if pos0[t] != pos1[t]]
+    key = S.key
+    for a in moved:
+        a0, a1 = pos0[a], pos1[a]
+        if not (is_ancestor(a0, a1) or is_ancestor(a1, a0)):
+            F.add((cls, what, 'moves-along-parent-links'),
+                  where + 'the timer with expiry %s moved from slot %d to slot %d, which is neither above nor below it' % (kfmt(S, a), a0, a1))
+            continue
+        if is_ancestor(a1, a0):          # towards the root
+            for b in q1:
+                if b is not a and is_ancestor(a1, pos1[b]) and is_ancestor(pos0[b], a0) and not key[a] < key[b]:
+                    F.add((cls, what, 'passes-only-strictly-earlier'),
+                          where + 'the timer with expiry %s (slot %d -> %d) was moved above the timer with expiry %s (slot %d -> %d) '
+                                  'which is not strictly later' % (kfmt(S, a), a0, a1, kfmt(S, b), pos0[b], pos1[b]))
+            for c in (2 * a1, 2 * a1 + 1):
+                if c <= n and key[q1[c - 1]] < key[a]:
+                    F.add((cls, what, 'promoted-not-later-than-children'),
+                          where + 'the timer with expiry %s was moved up into slot %d although the timer in its child slot %d (expiry %s) '
+                                  'is earlier' % (kfmt(S, a), a1, c, kfmt(S, q1[c - 1])))
+
+
+def emit(ctx, S, F, cls, ops, kinds, rule_of, what_text, aborted=None):
+    for what in ops:
+        f = S.f_reg if what == 'register' else S.f_unreg
+        for kind in kinds:
+            key = (cls, what, kind)
+            n = F.runs.get(key, 0)
+            bad = F.bad.get(key)
+            if not n:
+                if not aborted:
+                    raise AnalysisBroken('%s: no scenario of class %s evaluated %s' % (kind, cls, what))
+                bad = 'not reached, the history stopped before: %s' % aborted
+            text = dict(KINDS, **STEP_KINDS)[kind]
+            if kind in STEP_KINDS:
+                what_text = '%d transitions between complete heap states observed' % F.runs.get((cls, what, 'transitions'), 0)
+            ctx.ob(rule_of(kind), '%s:%s:%s' % (cls, what, kind), bad is None, loc=f.loc,
+                   detail=('%s; %s (%d evaluations of %s)' % (text, what_text, n, f.name)) if bad is None else ('%s -- violated: %s' % (text, bad)),
+                   fn=f.q)
+
+
+# ---------------------------------------------------------------------------------------
+# small: exhaustive
+# ---------------------------------------------------------------------------------------
+
+def tie_variants(h):
+    """the arrangement with distinct ranks, and order-preserving images of it with equal expiries"""
+    out = [('distinct', [2 * r for r in h])]
+    if len(h) >= 2:
+        out.append(('pairs-equal', [2 * (r // 2) for r in h]))
+        out.append(('all-equal', [0 for r in h]))
+    return out
+
+
+SMALL_MAX = 7
+
+
+def small(ctx):
+    S = h05.Store(ctx.prog)
+    F = Findings()
+    for n in range(0, SMALL_MAX + 1):
+        for h in h05.heaps(n):
+            for (vn, ranks) in tie_variants(h):
+                if n == SMALL_MAX and vn == 'all-equal':
+                    continue
+                ts = S.build(ranks)
+                S.mark()
+                # removal of every victim
+                for v in range(1, n + 1):
+                    one_op(S, F, 'small', 'unregister', ts, ts[v - 1], 'unregister of slot %d' % v, steps=True)
+                    S.rollback()
+                # registration of a timer of every rank relative to the present ones (between, equal, below, above)
+                news = sorted(set([r + d for r in ranks for d in (-1, 0, 1)] + [-1]))
+                if vn != 'distinct':
+                    news = sorted(set(ranks)) or [0]
+                if n == SMALL_MAX:
+                    news = news[::3]
+                for r in news:
+                    t = S.timer(r, 'new%d' % r)
+                    one_op(S, F, 'small', 'register', ts, t, 'register of expiry %s' % kfmt(S, t), steps=True)
+                    S.rollback()
+    rule = {'completes': 'R-C05a', 'heap-order': 'R-C05a', 'population': 'R-C05a', 'back-index': 'R-C05b', 'vacated': 'R-C05c', 'depth': 'R-C05c'}
+    emit(ctx, S, F, 'small', ('register', 'unregister'), list(KINDS), rule.get,
+         'every heap of 0..%d timers incl. equal expiries, every victim / every rank of the new timer' % SMALL_MAX)
+    emit(ctx, S, F, 'small', ('register', 'unregister'), list(STEP_KINDS), lambda k: 'R-C05a.step',
+         'every pair of consecutive complete heap states within a call')
+
+
+# ---------------------------------------------------------------------------------------
+# capacity boundaries of the radix store
+# ---------------------------------------------------------------------------------------
+
+def layouts(n):
+    """two valid heaps of n timers: expiries ascending by slot; and only the path from the root to the last
+    slot early (the timer taken from the last slot then has to move up when it fills an interior hole)"""
+    asc = [2 * k for k in range(1, n + 1)]
+    path = set()
+    k = n
+    while k >= 1:
+        path.add(k)
+        k >>= 1
+    small_first = [(2 * k.bit_length()) if k in path else 2 * (1000 + k) for k in range(1, n + 1)]
+    return [('ascending', asc), ('path-early', small_first)]
+
+
+def capacity(ctx):
+    S = h05.Store(ctx.prog)
+    rule = {'completes': 'R-C05c', 'heap-order': 'R-C05a', 'population': 'R-C05c', 'back-index': 'R-C05b', 'vacated': 'R-C05c', 'depth': 'R-C05c'}
+    for level in (1, 2):
+        B = S.fan ** level
+        cls = 'cap%d' % B
+        F = Findings()
+        big = level > 1
+        pops = [B - 1, B, B + 1, B + 2, 2 * B + 44] if not big else [B - 1, B, B + 1, B + 6]
+        for n in pops:
+            for (ln, ranks) in layouts(n):
+                if big and ln != 'ascending' and n not in (B, B + 6):
+                    continue
+                victims = sorted({1, 2, B // 2, B - 1, B, B + 1, n - 1, n} & set(range(1, n + 1)))
+                if big:
+                    victims = sorted({1, B, n} & set(range(1, n + 1))) + ([B // 2 + 1] if ln == 'ascending' and n == B else [])
+                ts = S.build(ranks)
+                S.mark()
+                for v in victims:
+                    one_op(S, F, cls, 'unregister', ts, ts[v - 1], '%s heap of %d timers, unregister of slot %d' % (ln, n, v))
+                    S.rollback()
+                for r in ((0, 2 * (3000 + 2 * n)) if not big or n in (B - 1, B) else ()):
+                    if big and ln != 'ascending':
+                        continue
+                    t = S.timer(r, 'new%d' % r)
+                    live = one_op(S, F, cls, 'register', ts, t, '%s heap of %d timers, register of expiry %s' % (ln, n, kfmt(S, t)))
+                    # and straight back: the timer just added is removed again (the boundary is crossed both ways by the code itself)
+                    if live is not None and not big:
+                        one_op(S, F, cls, 'unregister', live, t, '%s heap of %d timers after registering expiry %s, unregister of it'
+                               % (ln, n, kfmt(S, t)))
+                    S.rollback()
+        emit(ctx, S, F, cls, ('register', 'unregister'), list(KINDS), rule.get,
+             'populations around %d (radix depth %d <-> %d), victims at the root, around slot %d and at the end' % (B, level - 1, level, B))
+
+
+# ---------------------------------------------------------------------------------------
+# one long mixed history
+# ---------------------------------------------------------------------------------------
+
+def mixed(ctx):
+    S = h05.Store(ctx.prog)
+    F = Findings()
+    S.fresh()
+    live = []
+    x = 12345
     ok = True
-    firsts = {}
-    for e in swaps:
-        if e['_b'] not in firsts or e['_i'] < firsts[e['_b']]['_i']:
-            firsts[e['_b']] = e
-    for e in firsts.values():      # the first store of each swap sequence (later ones follow a store through a pointer)
-        A = hd.get((e['_b'], e['_i']), frozenset())
-        # on the edge timer_ptr_gt(*parentslot, *cur) != 0
-        if not any(a[0] == '!=' and a[2] == '0' and a[1].startswith('timer_ptr_gt(*') and a[1].endswith(', *%s)' % cur) for a in A):
+    n_grow = S.fan + 13
+
+    def rnd(m):
+        nonlocal x
+        x = (x * 1103515245 + 12345) & 0x7fffffff
+        return (x >> 8) % m
+
+    def do(what, t, label):
+        nonlocal live, ok
+        r = one_op(S, F, 'mixed', what, live, t, label)
+        if r is None:
             ok = False
-    ctx.ob('R-C05a.step', 'pull_up:swap-iff-parent-strictly-later', ok, loc=swaps[0]['loc'],
-           detail='the swap with the parent is on the edge timer_ptr_gt(*parent, *%s) != 0' % cur, fn=up.q)
-    par = [e for e in up.events() if is_call(e, 'iv_timer_get_node')]
-    okp = bool(par) and all(canon(e['args'][1]) in ('parent', '(index / 2)') for e in par)
-    pdef = [e for e in up.events() if e['ev'] == 'store' and canon(e['lhs']) == 'parent']
-    okp = okp and all(canon(e['rhs']) == '(index / 2)' for e in pdef)
-    ctx.ob('R-C05a.step', 'pull_up:parent-is-index/2', okp, loc=up.loc, detail='the compared slot is heap[index / 2]', fn=up.q)
-    dn = prog.fn('push_down')
-    hd = holding(dn)
-    sel = [e for e in dn.events() if e['ev'] == 'store' and canon(e['lhs']) == 'imin' and canon(e.get('rhs')) != dn.params[2]['name']]
-    if len(sel) < 2:
-        raise AnalysisBroken('push_down: child selections not found')
-    for e in sel:
-        rhs = canon(e['rhs'])
-        child = {'p': ('p[0]', '*p', '(2 * index)'), '(p + 1)': ('p[1]', '*(p + 1)', '((2 * index) + 1)')}.get(rhs)
-        A = hd.get((e['_b'], e['_i']), frozenset())
-        ok = child is not None and any(a[0] == '!=' and a[2] == '0' and a[1] in ('timer_ptr_gt(*imin, %s)' % child[0], 'timer_ptr_gt(*imin, %s)' % child[1]) for a in A)
-        ctx.ob('R-C05a.step', 'push_down:select %s only-if-strictly-earlier' % rhs, bool(ok), loc=e['loc'],
-               detail='imin = %s is on the edge timer_ptr_gt(*imin, <that child>) != 0' % rhs, fn=dn.q)
-        # index_min recorded for the same child in the same block
-        idx = [x for x in dn.events() if x['ev'] == 'store' and canon(x['lhs']) == 'index_min' and x['_b'] == e['_b']]
-        ctx.ob('R-C05a.step', 'push_down:index of %s' % rhs, child is not None and bool(idx) and all(canon(x['rhs']) == child[2] for x in idx), loc=e['loc'],
-               detail='index_min = %s is recorded with the selection of %s' % (child[2] if child else '?', rhs), fn=dn.q)
-    # children fetched from slot 2*index, guarded by 2*index <= num_timers
-    g = [e for e in dn.events() if is_call(e, 'iv_timer_get_node')]
-    okg = bool(g)
-    for e in g:
-        A = hd.get((e['_b'], e['_i']), frozenset())
-        okg = okg and canon(e['args'][1]) == '(2 * index)' and any(a[0] == '<=' and a[1] == '(2 * index)' and 'num_timers' in a[2] for a in A)
-    ctx.ob('R-C05a.step', 'push_down:children-within-heap', okg, loc=dn.loc, detail='children are read only when 2*index <= num_timers', fn=dn.q)
-    t = prog.fn('timer_ptr_gt')
-    rets = [e for (pb, pi, e) in exits_of(t)]
-    okt = len(rets) == 1 and canon(rets[0]['value']) == 'timespec_gt(&%s->expires, &%s->expires)' % (t.params[0]['name'], t.params[1]['name'])
-    ctx.ob('R-C05a.step', 'timer_ptr_gt:is-expiry-order', okt, loc=t.loc, detail='timer order is timespec_gt on the expires fields, first argument first', fn=t.q)
+        else:
+            live = r
+    i = 0
+    while ok and len(live) < n_grow:
+        t = S.timer(rnd(97) * 2, 'm%d' % i)
+        i += 1
+        do('register', t, 'history step %d: register (population %d)' % (i, len(live)))
+    for j in range(90):
+        if not ok:
+            break
+        i += 1
+        if rnd(3) and live:
+            v = 1 + rnd(len(live))
+            t = S.slot(v)
+            if not isinstance(t, Obj):
+                break
+            do('unregister', t, 'history step %d: unregister of slot %d (population %d)' % (i, v, len(live)))
+        else:
+            t = S.timer(rnd(97) * 2, 'm%d' % i)
+            do('register', t, 'history step %d: register (population %d)' % (i, len(live)))
+    popped = []
+    bad_order = None
+    while ok and live:
+        i += 1
+        t = S.slot(1)
+        if not isinstance(t, Obj):
+            break
+        if popped and S.k(popped[-1]) > S.k(t) and bad_order is None:
+            bad_order = 'draining the store from the root yields expiry %s after %s' % (kfmt(S, t), kfmt(S, popped[-1]))
+        popped.append(t)
+        do('unregister', t, 'history step %d: unregister of the root (population %d)' % (i, len(live)))
+    rule = {'completes': 'R-C05a', 'heap-order': 'R-C05a', 'population': 'R-C05a', 'back-index': 'R-C05b', 'vacated': 'R-C05c', 'depth': 'R-C05c'}
+    stopped = None
+    if not ok:
+        stopped = '; '.join(sorted(set(F.bad.values())))[:400]
+    emit(ctx, S, F, 'mixed', ('register', 'unregister'), list(KINDS), rule.get,
+         'a history of %d calls: growth to %d, removals anywhere mixed with registrations, drain' % (i, n_grow), aborted=stopped)
+    ctx.ob('R-C05a', 'mixed:drain-order', ok and bad_order is None and not live, loc=S.f_unreg.loc,
+           detail='removing the root until the store is empty yields the expiries in non-decreasing order'
+                  + ('' if ok and bad_order is None and not live else ' -- violated: %s' % (bad_order or 'the history did not complete')), fn=S.f_unreg.q)
 
 
-def slots(ctx):
+# ---------------------------------------------------------------------------------------
+# the order used is the strict lexicographic order of the expiry
+# ---------------------------------------------------------------------------------------
+
+def order_table(ctx):
+    S = h05.Store(ctx.prog)
+    val = {'<': (5, 7), '=': (6, 6), '>': (7, 5)}
+    for so in '<=>':
+        for no in '<=>':
+            a_key = (val[so][0], 100 * val[no][0])
+            b_key = (val[so][1], 100 * val[no][1])
+            b_earlier = b_key < a_key
+            a_earlier = a_key < b_key
+            for (first, want_first, inst) in (('a', not b_earlier, 'a-then-b'), ('b', not a_earlier, 'b-then-a')):
+                S.fresh()
+                ta, tb = S.timer(0, 'a'), S.timer(0, 'b')
+                for t, k in ((ta, a_key), (tb, b_key)):
+                    t.cells[S.o_sec], t.cells[S.o_nsec] = k
+                    S.key[t] = k
+                seq = (ta, tb) if first == 'a' else (tb, ta)
+                fault = None
+                for t in seq:
+                    fault = fault or S.op('register', t)
+                root = S.slot(1)
+                want = seq[0] if want_first else seq[1]
+                ok = fault is None and root is want and S.slot(2) is (seq[1] if want_first else seq[0])
+                ctx.ob('R-C05a.cmp', 'order:sec%s,nsec%s:%s' % (so, no, inst), ok, loc=S.f_reg.loc,
+                       detail='a = %d.%03d, b = %d.%03d registered %s: the root must be %s (%s)%s'
+                              % (a_key + b_key + (inst, want.name.split('#')[0],
+                                                  'strictly earlier' if (a_earlier or b_earlier) else 'equal expiries keep their places',
+                                                  '' if ok else ' -- violated: %s' % (fault.msg if fault else 'root is %s' % kfmt(S, root)))),
+                       fn=S.f_reg.q)
+
+
+# ---------------------------------------------------------------------------------------
+# who writes the back-index and the population count
+# ---------------------------------------------------------------------------------------
+
+def writers(ctx):
     prog = ctx.prog
-    n = 0
-    for fn in ('pull_up', 'push_down', 'iv_timer_register', 'iv_timer_unregister'):
-        f = prog.fn(fn)
-        lps = loops(f)
-        for e in f.events():
-            if e['ev'] != 'store' or strip(e['lhs']).get('k') != 'deref':
-                continue
-            if 'iv_timer_ *' not in strip(e['lhs']).get('type', ''):
-                continue
-            if canon(e.get('rhs')) in ('NULL', '0'):
-                continue
-            slotp = canon(strip(e['lhs'])['e'])
-            rhs = strip(e['rhs'])
-            rv = rhs['name'] if isinstance(rhs, dict) and rhs.get('k') == 'var' else None
-            def paired(x, slotp=slotp, rv=rv):
-                if x['ev'] != 'store' or last_member(x['lhs']) != ('iv_timer_', 'index'):
-                    return False
-                b = canon(strip(x['lhs'])['base'])
-                return b == '*' + slotp or (rv is not None and b == rv)
-            mp = must_pass(f, paired, start_event=e)
-            # reassigning the slot pointer before the pairing breaks it
-            h = innermost_loop(f, e['_b'], lps)
-            bad = False
-            pts = [(pb, pi) for (pb, pi, _) in exits_of(f)] + [(f.exit, 0)]
-            for p in pts:
-                if mp.get(p) is False:
-                    bad = True
-            if h is not None:
-                for b in lps[h]:
-                    for si, s_ in enumerate(f.blocks[b].succ):
-                        if s_ == h and mp.get((b, len(f.blocks[b].events))) is False:
-                            bad = True
-            n += 1
-            ctx.ob('R-C05b', '%s:%s' % (fn, describe(e)), not bad, loc=e['loc'],
-                   detail='the timer stored into the slot gets its index updated before the step / function ends', fn=f.q)
-    if n < 6:
-        raise AnalysisBroken('heap slot stores: %d found, 6 confirmed' % n)
+    home = relpath(prog.fn('iv_timer_register').file).split('/')[-1]
     for fld in (('iv_timer_', 'index'), ('iv_state', 'num_timers')):
         ws = {relpath(fn.file).split('/')[-1] for (fn, e) in prog.writers_of(*fld)}
-        ctx.ob('R-C05b', '%s.%s:writers' % fld, ws <= {'iv_timer.c'}, loc=prog.fn('iv_timer_register').loc, detail='written in: %s' % sorted(ws))
-
-
-def vacated(ctx):
-    prog = ctx.prog
-    f = prog.fn('iv_timer_unregister')
-    clr = [e for e in f.events() if e['ev'] == 'store' and strip(e['lhs']).get('k') == 'deref' and canon(e.get('rhs')) in ('NULL', '0')]
-    dec = [e for e in f.events() if e['ev'] == 'store' and last_member(e['lhs']) == ('iv_state', 'num_timers') and e['op'] == '--']
-    if not dec:
-        raise AnalysisBroken('iv_timer_unregister: num_timers-- not found')
-    mp = must_pass(f, lambda e: e in clr)
-    ctx.ob('R-C05c', 'unregister:last-slot-cleared-before-count-drops', bool(clr) and all(mp.get((e['_b'], e['_i'])) for e in dec), loc=dec[0]['loc'],
-           detail='*m = NULL precedes num_timers-- (sift-down relies on NULL beyond the end)', fn=f.q)
-    # the cleared slot is the last one
-    mdef = [e for e in f.events() if e['ev'] == 'store' and clr and canon(e['lhs']) == canon(strip(clr[0]['lhs'])['e'])]
-    okm = bool(mdef) and all('num_timers' in canon(e['rhs']) for e in mdef)
-    ctx.ob('R-C05c', 'unregister:cleared-slot-is-last', okm, loc=clr[0]['loc'] if clr else f.loc, detail='the cleared slot is heap[num_timers]', fn=f.q)
-    rm = [e for e in f.events() if is_call(e, 'iv_timer_radix_tree_remove_level')]
-    hd = holding(f)
-    ok = bool(rm)
-    for e in rm:
-        A = hd.get((e['_b'], e['_i']), frozenset())
-        ok = ok and any(a[0] == '==' and 'num_timers' in a[1] and '<<' in a[2] and 'rat_depth' in a[2] for a in A) \
-            and any(a[0] == '>' and a[1].endswith('rat_depth') and a[2] == '0' for a in A)
-    r = prog.fn('iv_timer_radix_tree_remove_level')
-    mpd = must_pass(r, lambda e: e['ev'] == 'store' and last_member(e['lhs']) == ('iv_state', 'rat_depth') and e['op'] == '--')
-    ctx.ob('R-C05c', 'unregister:level-dropped-at-boundary', ok and bool(mpd.get((r.exit, 0))), loc=rm[0]['loc'] if rm else f.loc,
-           detail='remove_level only when num_timers == 1 << (rat_depth * SPLIT_BITS) and rat_depth > 0; it decrements rat_depth', fn=f.q)
+        if not ws:
+            raise AnalysisBroken('no store to %s.%s found' % fld)
+        ctx.ob('R-C05b', '%s.%s:writers' % fld, ws <= {home}, loc=prog.fn('iv_timer_register').loc, detail='written in: %s' % sorted(ws))
